@@ -96,13 +96,22 @@ func (c *c12TokenClient) AuthenticationV1() authenticationclient.AuthenticationV
 	return &c12Authn{cluster: c.cluster}
 }
 
-type c12TokenProvider struct{ a, b *clusters.ClusterInfo }
+type c12TokenProvider struct {
+	a, b       *clusters.ClusterInfo
+	aliasOwner string // "A" (default) or "B": the alias server name can be moved to the other cluster by the operator
+}
 
 func (p *c12TokenProvider) ClientFor(name string) (*clusters.ClusterInfo, kubernetes.Interface, error) {
 	var ci *clusters.ClusterInfo
 	id := ""
+	if name == "alias-a.io" {
+		name = "a.io"
+		if p.aliasOwner == "B" {
+			name = "b.io"
+		}
+	}
 	switch name {
-	case "a.io", "alias-a.io":
+	case "a.io":
 		ci, id = p.a, "A"
 	case "b.io":
 		ci, id = p.b, "B"
@@ -119,7 +128,7 @@ func (p *c12TokenProvider) ClientFor(name string) (*clusters.ClusterInfo, kubern
 // with any authenticated / not authenticated / error answer per cluster and any cache expiry, with caching on or off.
 // Every authentication result comes from the cluster of the request's own host (answers are tagged); reviews go to that
 // cluster only; if the cluster cannot be asked the request is not authenticated.
-// verif:bounds 2 clusters (A with 2 host names, B), unknown host; k = 2 requests (quick) / 3 (thorough); tokens 1 symbolic byte; caching enabled or disabled
+// verif:bounds 2 clusters (A with 2 host names, B), unknown host; k = 2 requests (quick) / 3 (thorough); tokens 1 symbolic byte; caching enabled or disabled; the alias name may be moved from A to B between two requests (requests to the moved name are issued but not judged)
 func HarnessC12Authentication() {
 	ghostC12TokenReviewsA, ghostC12TokenReviewsB = 0, 0
 	p := &c12TokenProvider{a: c12TokenProviderCluster("a"), b: c12TokenProviderCluster("b")}
@@ -129,13 +138,24 @@ func HarnessC12Authentication() {
 	}
 	an := NewMultiClusterTokenReviewAuthenticator(p, ttl, ttl, nil)
 	k := vbound(2, 3)
+	aliasMoved := false
 	for i := 0; i < k; i++ {
+		// the operator may move the alias server name from cluster A to cluster B (neither cluster is stopped)
+		if i > 0 && !aliasMoved && nondetBool("aliasMovesToB", i) {
+			p.aliasOwner, aliasMoved = "B", true
+		}
 		host, cluster := "nowhere.io", ""
 		switch nondetRange("host", 0, 3, i) {
 		case 0:
 			host, cluster = "a.io", "A"
 		case 1:
 			host, cluster = "alias-a.io", "A"
+			if aliasMoved {
+				// requests to a re-assigned server name are outside the property's quantifier (it ranges over request
+				// sequences, not over re-assignments of names): they are issued, nothing is asserted about them
+				an.AuthenticateToken(request.WithExtraRequestInfo(context.Background(), &request.ExtraRequestInfo{Hostname: host}), nondetStringN("token", 1, i))
+				continue
+			}
 		case 2:
 			host, cluster = "b.io", "B"
 		}
